@@ -1,6 +1,7 @@
 package props
 
 import (
+	"bufio"
 	"bytes"
 	"context"
 	"errors"
@@ -383,6 +384,14 @@ type c15Dest struct {
 }
 
 var c15FailingDests = []c15Dest{
+	{"the caller's *bufio.Writer whose earlier Flush has failed (every later Write is refused at once)", func(dir string) (io.Writer, func()) {
+		pr, pw := io.Pipe()
+		pr.CloseWithError(errInjected)
+		bw := bufio.NewWriter(pw)
+		bw.WriteString("a title line the caller wrote first\n")
+		bw.Flush() // fails: from now on the writer is in its sticky error state
+		return bw, func() { pw.Close() }
+	}},
 	{"*os.File that has been closed", func(dir string) (io.Writer, func()) {
 		f, err := os.CreateTemp(dir, "c15-closed-*.out")
 		if err != nil {
